@@ -54,7 +54,7 @@ func runRaceA(c *worker.Ctx) {
 	for i := range originJitter {
 		originJitter[i] = time.Duration(c.T.Draw(300)) * time.Microsecond
 	}
-	store := simfs.New(familyK, nil)
+	store := simfs.New(vclK("3600s"), nil)
 	interp := interpreter.New(icontext.WithResolver(store))
 	interp.Debugger = silentDebugger{}
 	var trips atomic.Int64
@@ -142,7 +142,7 @@ func runRaceA(c *worker.Ctx) {
 		for i, r := range all {
 			ops = append(ops, porcupine.Operation{ClientId: i, Input: r.in, Call: r.call, Output: r.out, Return: r.ret})
 		}
-		switch porcupine.CheckOperationsTimeout(kModel, ops, 20*time.Second) {
+		switch checkHistory(ops) {
 		case porcupine.Illegal:
 			res.Violate("C18/linearizable", "C18/not-serialisable:requests", fmt.Sprintf("no one-at-a-time order produces the observed responses:\n%s", desc()))
 		case porcupine.Unknown:
